@@ -106,7 +106,7 @@ SCHED_STATES = ["cold", "nofolder", "Q-empty", "Q-frame", "Q-mid", "D-empty", "D
 SPECIAL_STATES = ["nofolder", "empty-folder", "only-locks", "missing-Q", "missing-D", "empty-Q", "empty-D", "empty-both",
                   "no-locks-trunc", "wrongtype-Q", "wrongtype-D", "swapped", "wrongclass-Q", "wrongclass-D"]
 STALE_KINDS = ["touch-device-yaml", "edit-device-yaml", "touch-cfg-file", "edit-cfg-file", "touch-defaults", "edit-defaults",
-               "edit-cfg-file+cached-file-vanished"]
+               "edit-cfg-file+cached-file-vanished", "edit-cfg-file+other-process-first", "edit-device-yaml+other-process-first"]
 
 _S: dict = {}
 
@@ -959,6 +959,16 @@ def _case_stale(case, ctx):
         fresh = _reference(ctx, data=data, key=f"ref-{kind}")  # fresh cache folder on the modified copy
         what = {"state": f"stale:{kind}", "file": os.path.relpath(path, data),
                 "edit": "same-size content edit + mtime bump" if new is not None else "mtime bump only"}
+        if kind.endswith("+other-process-first"):
+            # history: a short-lived process starts on the stale cache, needs only OTHER data files (it stores them, which
+            # re-reads and merges whatever cache is on disk) and exits; only then a process asks for the edited file
+            first, extra_f = _midlife_files(ctx)
+            src_root = os.path.join(core.repo_root(), "spsdk", "data")
+            others = [os.path.join(data, os.path.relpath(f, src_root)) for f in first + extra_f[:1]]
+            r1 = _run({"mode": "midlife", "queries": "none", "first_files": others, "extra_files": [], "damage": {}}, cache, wdir, data)
+            if r1["rc"] != 0:
+                _judge_child(ctx, r1, fresh, dict(what, stage="first (short-lived) process on the stale cache"))
+                return
         r = _run({"mode": "digest", "queries": "full"}, cache, wdir, data)
         ctx.count("stale_real")
         ok = _judge_child(ctx, r, fresh, what)
